@@ -1,13 +1,9 @@
-"""Per-property configuration of the generic driver."""
+"""Per-property configuration: one JSON file per property under lib/propcfg/."""
+import glob, json, os
 PROPS = {}
-
-def prop(id, **kw):
-    kw.setdefault("coq_dir", id)
-    kw["id"] = id
-    PROPS[id] = kw
-
-prop("C07", family="c07", n_quick=400, n_thorough=4000,
-     trusted=["hand-written Gallina models of internal/sourcemap (encodeVLQ, DecodeVLQ, appendMappingToBuffer, AppendSourceMapChunk, SourceMapPieces.Finalize, SourceMap.Find) tied to the Go code by the correspondence run; "
-              "add-only hook internal/sourcemap/export_verif.go (wrappers, no logic)"],
-     assumptions=["Go int modelled as unbounded Z (theorems state |v| < 2^62 where 64-bit width matters)",
-                  "where the printers call AddSourceMapping is not modelled; it is exercised by the marker-program glue stream through api.Build"])
+for f in sorted(glob.glob(os.path.join(os.path.dirname(os.path.abspath(__file__)), "propcfg", "C*.json"))):
+    c = json.load(open(f))
+    pid = os.path.basename(f)[:-5]
+    c.setdefault("coq_dir", pid)
+    c["id"] = pid
+    PROPS[pid] = c
